@@ -1,6 +1,7 @@
 import PdshVerif.Base.Hex
 import PdshVerif.Hostlist.Print
 import PdshVerif.Hostlist.PrintRangeMove
+import PdshVerif.Hostlist.PrintPolicy
 import PdshVerif.Hostlist.PrintSpec
 import PdshVerif.Hostlist.Parse
 import PdshVerif.Hostlist.Probed
@@ -20,7 +21,8 @@ import Driver.Util
                            last field = stores outside [0,n), −1 = below the buffer)
       pexact r|d NMAX      which n make an exact-size heap allocation overflow -> none | crash n:kind,..
       pback r|d            parse the reference text back: same COUNT | diff .. | null:ERRNO:FATAL | ub:..
-      pcli q|Q             the "-- Target nodes --" line of opt_list (1024-byte buffer)
+      pcli q|Q [CAP]       the "-- Target nodes --" line of opt_list for a display capacity of CAP bytes (the caller's
+                           buffer policy as OBSERVED on the real pdsh; default 1024, the literal of the code as found)
       pxlist               list_push_hostlist: the text, or `diverge`
       pranges s|p|n        hostlist_shift_range / hostlist_pop_range / hostlist_next_range until NULL: HEX|HEX|.. or none
       pranges S|P          the first two on the records AS GIVEN (joinable neighbours unjoined): .. [!ub]
@@ -176,13 +178,26 @@ def step (st : St) (line : String) : St × String :=
       Hex.encodeChars (content c.2 size).1 ++ (if oob.isEmpty then "" else "!oob")
     (st, if outs.isEmpty then "none" else "|".intercalate outs)
   | ["pcli", which] =>
-    match optList st.fixed (which == "Q") ⟨st.rs.toArray, 0⟩ with
+    match optListN WCOLL_STR st.fixed (which == "Q") ⟨st.rs.toArray, 0⟩ with
     | (b, some s) => (st, Hex.encodeChars s ++ oobField b WCOLL_STR)
     | (b, none) => (st, "no-nul" ++ oobField b WCOLL_STR)
+  | ["pcli", which, capS] =>
+    match capS.toNat? with
+    | some cap =>
+      match optListN cap st.fixed (which == "Q") ⟨st.rs.toArray, 0⟩ with
+      | (b, some s) => (st, Hex.encodeChars s ++ oobField b cap)
+      | (b, none) => (st, "no-nul" ++ oobField b cap)
+    | none => (st, "bad-op")
   | ["pxlist"] =>
-    match listPushHostlist st.xfixed ⟨st.rs.toArray, 0⟩ with
-    | (_, some s) => (st, Hex.encodeChars s)
-    | (_, none) => (st, "diverge")
+    -- repaired list_push_hostlist: doubling until the text fits (fix b20e58e: no ceiling)
+    if st.xfixed then
+      match listPushGrow ⟨st.rs.toArray, 0⟩ 64 XLIST_BUF with
+      | some (_, s) => (st, Hex.encodeChars s)
+      | none => (st, "diverge")
+    else
+      match listPushHostlist false ⟨st.rs.toArray, 0⟩ with
+      | (_, some s) => (st, Hex.encodeChars s)
+      | (_, none) => (st, "diverge")
   | _ => (st, "bad-op")
 
 def main (args : List String) : IO UInt32 := do
